@@ -333,6 +333,13 @@ def shard(ctx):
                            "frag": True, "container": cont, "scripting": bool(pi % 2)})
             ctx.count("container_probe_cases")
             ctx.add("containers", cont)
+    # every short token sequence, both builders, document and one fragment context (bounded-exhaustive)
+    for qi, q in enumerate(gen.token_sequences(ctx, 2, 3, 0.3, min_seconds=120.0)):
+        for kind in ("etree-full", "dom"):
+            run_case(ctx, {"input": q, "src": "str", "builder": kind, "ns": True, "frag": False, "container": None, "scripting": False})
+        run_case(ctx, {"input": q, "src": "str", "builder": ("etree", "dom")[qi % 2], "ns": bool(qi % 3), "frag": True,
+                       "container": CONTAINERS[qi % len(CONTAINERS)], "scripting": bool(qi % 2)})
+        ctx.count("sequence_cases")
     # random part
     idx = ctx.i
     n_random = 0
@@ -368,6 +375,7 @@ def replay(ctx, case):
 
 
 def finalize(m, v):
+    gen.sequences_inconclusive(m)
     c = m["counters"]
     if c.get("pathological_cases", 0) < 100:
         m["inconclusive"].append("fewer than 100 pathological cases ran")
